@@ -57,7 +57,8 @@ REQUIRED_THEOREMS = ['OpusProps.C11.' + n for n in (
     'constants_agree', 'ctl_inv', 'encode_never_changes_settings', 'ctl_inv_decoder', 'ctl_inv_multistream', 'ms_encode_keeps_inv', 'create_rejects', 'create_rejects_multistream', 'create_rejects_surround',
     'create_rejects_projection', 'set_get_projection', 'reject_unchanged_projection',
     'frame_size_select_spec', 'int_ranges', 'honour_duration', 'honour_channels', 'honour_channels_midstream',
-    'honour_bandwidth', 'lowdelay_celt_only', 'short_frames_celt_only', 'encode_keeps_inv')]
+    'honour_bandwidth', 'silk_rate_inv', 'silk_rate_constant', 'silk_rate_down_switch',
+    'honour_bandwidth_silk', 'lowdelay_celt_only', 'short_frames_celt_only', 'encode_keeps_inv')]
 UNPROVED = [
     'int ranges of the decision chain proper need no lemma (comparisons only); the SILK/CELT rate computations that '
     'follow the chain (compute_equiv_rate etc.) are DSP oracles, outside this model',
